@@ -377,7 +377,7 @@ func runCodec(cs *Case) (w *World) {
 						hasMerge = true
 					}
 				}
-				v := (&gen{r: rng, p: seqProfile{}}).genVal(c)
+				v := (&gen{r: rng, p: seqProfile{}, av: avoid{enumCollision: true}}).genVal(c)
 				issued = append(issued, fput(buf, c.Kind, op, off, v.M(c.Kind)))
 			}
 			if v := w.codecChecks(buf, issued, rng); v != nil {
@@ -437,7 +437,7 @@ func runCodec(cs *Case) (w *World) {
 			buf.Reset(c.Name)
 			for i, n := 0, rng.Range(1, 10); i < n; i++ {
 				off := live[rng.Intn(len(live))]
-				v := (&gen{r: rng, p: seqProfile{}}).genVal(c).M(c.Kind)
+				v := (&gen{r: rng, p: seqProfile{}, av: avoid{enumCollision: true}}).genVal(c).M(c.Kind)
 				if nk, ok := nums[c.Kind]; ok {
 					v.U = nk.canon(v.U)
 				}
